@@ -41,6 +41,8 @@ import GM.Props.ConvertNP
 import GM.Props.Wf0
 import GM.Props.ConvertX
 import GM.Props.C16E2E
+import GM.Props.ConvertE2ENT
+import GM.Props.ConvertE2ENP
 
 namespace GM.Props.C01
 open GM
@@ -330,5 +332,236 @@ theorem convertf_never_loops_conservative : type_of% @GM.Props.C16E2E.convertf_n
 /-- (re-export of `GM.Props.C16E2E.convertf_inline_phase_without_list_total`) C01 for that inline phase: TOTAL — children, no Go panic, no fuel exhaustion, no monitor (GM.Proof.InlinesLink.parseBlock_total
     carried over by the equality above) -/
 theorem convertf_inline_phase_without_list_total : type_of% @GM.Props.C16E2E.convertf_inline_phase_without_list_total := @GM.Props.C16E2E.convertf_inline_phase_without_list_total
+
+/-- (re-export of `GM.Props.ConvertE2ENT.convert_total_without_transformers`) **`convert_total_without_transformers`** — for EVERY byte string, every Unicode class assignment and every renderer
+    option set, the pipeline without paragraph transformers answers HTML: no Go panic of the block phase (all ten
+    parsers), none of the inline phase, no `Segment.Value` panic while a node renderer resolves a segment, no node
+    renderer panic; the run-time `WF0` check on the lines handed to the inline phase passes; no fuel bound, contract
+    monitor or modelling precondition is hit. -/
+theorem convert_total_without_transformers : type_of% @GM.Props.ConvertE2ENT.convert_total_without_transformers := @GM.Props.ConvertE2ENT.convert_total_without_transformers
+
+/-- (re-export of `GM.Props.ConvertE2ENT.convert_total_of_block_facts`) **`convert_total_of_block_facts`** — the interface to the block-phase packages (tnopanic: `block_phase_total`,
+    `block_phase_lines_wellformed`; wf0: the close discipline). `convertCore` answers HTML on every source on which the
+    block phase with the link-reference transformer answers a store in which (i) every line is in range, (ii) the lines of
+    every non-raw block with lines are `WFSegs`, (iii) every line of a non-raw block has padding 0. CAUTION: (iii) store-wide is FALSE for the driver with
+    transformers on some sources (see `convert_total_of_tree_facts`); this form is for drivers without them. Nothing else about the
+    block phase is needed: the info / closure segments, heading levels and the root are frame invariants of this package,
+    the inline phase is total on `WF0` lines, its segments resolve, no node renderer panics. -/
+theorem convert_total_of_block_facts : type_of% @GM.Props.ConvertE2ENT.convert_total_of_block_facts := @GM.Props.ConvertE2ENT.convert_total_of_block_facts
+
+/-- (re-export of `GM.Props.ConvertE2ENT.convert_total_of_tree_facts`) **`convert_total_of_tree_facts`** — the same interface in TREE form. The store of the driver WITH transformers contains
+    nodes that are not in the tree (a Paragraph that was transformed away; a setext Heading abandoned on the `goto retry`
+    behind it keeps a padded line: tnopanic's witness `> [a]: /u⏎>⇥===⏎`), so "padding 0" is only true of attached nodes —
+    and `docTree` only visits the tree: (iii) is needed of the non-raw nodes that are somebody's child, and the Document has
+    no lines. -/
+theorem convert_total_of_tree_facts : type_of% @GM.Props.ConvertE2ENT.convert_total_of_tree_facts := @GM.Props.ConvertE2ENT.convert_total_of_tree_facts
+
+/-- (re-export of `GM.Props.ConvertE2ENT.convert_total_of_block_phase_theorems`) **`convert_total_of_block_phase_theorems`** — C01 END TO END for the default pipeline from statements about its block
+    phase, in the shapes package tnopanic states / announces them (`GM.Props.ConvertNP.block_phase_total`,
+    `block_phase_lines_wellformed`, and the tree-walk form of the close discipline): the block phase with the link-reference
+    transformer always answers a store with `NodesOK`; the lines of its non-raw blocks are `WFSegs`; every line of a non-raw
+    node that is somebody's child has padding 0; the Document has no lines. Then for EVERY byte string, Unicode-class
+    assignment and option set `convertCore` answers HTML — no error outcome of any phase. -/
+theorem convert_total_of_block_phase_theorems : type_of% @GM.Props.ConvertE2ENT.convert_total_of_block_phase_theorems := @GM.Props.ConvertE2ENT.convert_total_of_block_phase_theorems
+
+/-- (re-export of `GM.Props.ConvertE2ENT.convert_total_of_store`) `convert_total_of_store`: the DEFAULT pipeline answers HTML on every source on which its block phase (with the
+    link-reference transformer) answers a store whose raw segments are in range and whose inline-bearing blocks have `WF0`
+    lines (`StoreTot`) — what remains of C01 for `convertCore` is exactly "the block phase with the transformer answers
+    such a store". -/
+theorem convert_total_of_store : type_of% @GM.Props.ConvertE2ENT.convert_total_of_store := @GM.Props.ConvertE2ENT.convert_total_of_store
+
+/-- (re-export of `GM.Props.ConvertE2ENT.convert_total_of_block_phase_agreement`) `convert_total_of_block_phase_agreement`: `convertCore` answers HTML on every source on which the block phase with
+    the link-reference transformer ends with the node store of the transformer-free one (sources without `[`, once "a
+    Paragraph handed to a transformer has WF lines" is carried through the driver with transformers). -/
+theorem convert_total_of_block_phase_agreement : type_of% @GM.Props.ConvertE2ENT.convert_total_of_block_phase_agreement := @GM.Props.ConvertE2ENT.convert_total_of_block_phase_agreement
+
+/-- (re-export of `GM.Props.ConvertE2ENT.store_of_plain_driver_is_total`) `store_of_plain_driver_is_total`: the store of the transformer-free block phase has `StoreTot`, every source -/
+theorem store_of_plain_driver_is_total : type_of% @GM.Props.ConvertE2ENT.store_of_plain_driver_is_total := @GM.Props.ConvertE2ENT.store_of_plain_driver_is_total
+
+/-- (re-export of `GM.Props.ConvertE2ENT.convert_with_is_convertT`) `convert_with_is_convertT`: the composed model is the instance `pts = paragraphTransformers guard` -/
+theorem convert_with_is_convertT : type_of% @GM.Props.ConvertE2ENT.convert_with_is_convertT := @GM.Props.ConvertE2ENT.convert_with_is_convertT
+
+/-- (re-export of `GM.Props.ConvertE2ENT.convert_bracket_free`) **`convert_bracket_free`** — for EVERY source without `[`: `convertCore` answers what the pipeline without paragraph
+    transformers answers (which is always HTML), or it ends in a block-phase error -/
+theorem convert_bracket_free : type_of% @GM.Props.ConvertE2ENT.convert_bracket_free := @GM.Props.ConvertE2ENT.convert_bracket_free
+
+/-- (re-export of `GM.Props.ConvertE2ENT.convert_total_bracket_free`) **`convert_total_bracket_free`** — with "the block phase of the default pipeline never errs" (tnopanic `block_phase_total`),
+    `convertCore` answers HTML on every source without `[` — and it is the HTML of the pipeline without transformers -/
+theorem convert_total_bracket_free : type_of% @GM.Props.ConvertE2ENT.convert_total_bracket_free := @GM.Props.ConvertE2ENT.convert_total_bracket_free
+
+/-- (re-export of `GM.Props.ConvertE2E.driver_with_no_transformers_is_plain_driver`) `driver_with_no_transformers_is_plain_driver`: `runT [] = run`, for EVERY source — the block driver WITH paragraph
+    transformers (GM.Model.Blocks.DriverT, what `convertCore` runs) instantiated with the empty list IS the driver of
+    GM.Model.Blocks.Driver (what GM.Props.Blocks / C01 / C05 / C08 / C09 / wf0 speak about), as final states and as error
+    outcomes. Mechanised function by function (`tryParsersT`, the retry loop, the two line loops); the two differ by the dead
+    `retryTransformed` branch and the `tdone` flag only. So every `run` theorem is a theorem about `runT []`. -/
+theorem driver_with_no_transformers_is_plain_driver : type_of% @GM.Props.ConvertE2E.driver_with_no_transformers_is_plain_driver := @GM.Props.ConvertE2E.driver_with_no_transformers_is_plain_driver
+
+/-- (re-export of `GM.Props.ConvertE2E.block_phase_bracket_free`) **`block_phase_bracket_free`** — for EVERY source without the byte `[` and both settings of the run-time check: the block phase
+    of the default pipeline (driver WITH the link-reference transformer) answers exactly what the block phase WITHOUT paragraph
+    transformers answers — the same final state (reader, node store, parse context, reference map) — or it ends in an error.
+    (With `block_phase_total` of package tnopanic, which excludes the error, this is the equality
+    `blockPhase true src = GM.Blocks.run src`.) Proof (GM.Proof.E2ERel): the two drivers are run side by side; the invariants
+    that make the transformer silent at its two call sites are carried along — the source is fixed, every Paragraph has a line
+    (`PNE`), the open-block stack is consistent (`J2`, so `RequireParagraph` closes the paragraph with `paragraphParser.Close`,
+    which keeps a paragraph that has a line attached: `transformed` is false on both sides). -/
+theorem block_phase_bracket_free : type_of% @GM.Props.ConvertE2E.block_phase_bracket_free := @GM.Props.ConvertE2E.block_phase_bracket_free
+
+/-- (re-export of `GM.Props.ConvertE2E.open_block_stack_consistent_and_paragraphs_have_lines`) **`open_block_stack_consistent_and_paragraphs_have_lines`** — for EVERY source: in the store the block phase WITHOUT
+    transformers returns, every block of the open-block stack has a node of the kind its parser builds (`J2`) and every
+    Paragraph node has at least one line (`PNE`). (Invariants that are not blind to the parse context / the lines: a fourth
+    walk, GM.Proof.E2EPara.) -/
+theorem open_block_stack_consistent_and_paragraphs_have_lines : type_of% @GM.Props.ConvertE2E.open_block_stack_consistent_and_paragraphs_have_lines := @GM.Props.ConvertE2E.open_block_stack_consistent_and_paragraphs_have_lines
+
+/-- (re-export of `GM.Props.ConvertE2E.link_reference_scan_finds_nothing_without_bracket`) `link_reference_scan_finds_nothing_without_bracket`: on a source without the byte `[` the first loop of
+    `linkReferenceParagraphTransformer.Transform` (link_ref.go:20-31), run on ANY list of line segments and any reference
+    map, removes nothing and registers nothing — whenever it answers at all. (Every line the block reader hands out
+    consists of source bytes, padding spaces and a newline, so `line[pos] != '['`, link_ref.go:73.) -/
+theorem link_reference_scan_finds_nothing_without_bracket : type_of% @GM.Props.ConvertE2E.link_reference_scan_finds_nothing_without_bracket := @GM.Props.ConvertE2E.link_reference_scan_finds_nothing_without_bracket
+
+/-- (re-export of `GM.Props.ConvertE2E.link_reference_transformer_silent_without_bracket`) `link_reference_transformer_silent_without_bracket`: from EVERY block-phase state over a source without `[`, on a
+    node that HAS at least one line, the paragraph transformer of `blockPhase guard` returns the state UNCHANGED (reader,
+    node store, reference map, open blocks) or ends in an error outcome. -/
+theorem link_reference_transformer_silent_without_bracket : type_of% @GM.Props.ConvertE2E.link_reference_transformer_silent_without_bracket := @GM.Props.ConvertE2E.link_reference_transformer_silent_without_bracket
+
+/-- (re-export of `GM.Props.ConvertE2E.link_reference_transformer_not_silent_on_lineless_paragraph`) `link_reference_transformer_not_silent_on_lineless_paragraph` (the NEGATION of "the transformer declines on every
+    state over a source without `[`", on a witness; reproduced on /repo by calling `Transform` on an attached
+    `ast.NewParagraph()` without lines: the Document's child becomes a TextBlock). On `witnessSt` — empty source, a
+    Document whose only child is a Paragraph WITHOUT lines — the guarded transformer succeeds and changes the tree: a
+    fresh TextBlock takes the paragraph's place (link_ref.go:41-47), the paragraph is detached. Hence carrying `run`
+    theorems over to `blockPhase` on such sources needs the driver invariant "a Paragraph handed to
+    `transformParagraph` (parser.go:904-907, 985-997) has a line", not only the byte condition. -/
+theorem link_reference_transformer_not_silent_on_lineless_paragraph : type_of% @GM.Props.ConvertE2E.link_reference_transformer_not_silent_on_lineless_paragraph := @GM.Props.ConvertE2E.link_reference_transformer_not_silent_on_lineless_paragraph
+
+/-- (re-export of `GM.Props.ConvertNP.block_phase_with_transformers_total`) **The block driver with paragraph transformers is total, for EVERY byte string and EVERY list of transformers that keep the
+    contract** (`PTsSpec src e pts`: a call on a Paragraph with a parent ends as `PTPost` says or answers the guard's outcome `e`;
+    `PTsOK pts`: no transformer exhausts fuel): `parseBlocks` with `transformParagraph` called where parser.go calls it —
+    `closeBlocks` (parser.go:904-907) and the RequireParagraph path of `openBlocks` (985-997: `Close` the paragraph, pop it,
+    transform it, `continuable = false; goto retry` when it has been transformed away) — returns a tree all of whose line segments
+    lie inside the source and whose Lists only have ListItem children, or a transformer's guard answered `e`. No Go panic of
+    parseBlocks / openBlocks / closeBlocks / the ten block parsers / the tree surgery (incl. `setextHeadingParser.Close` on a
+    transformed paragraph and the stale slice read `openedBlocks[lastIndex]` behind a transformed retry), no fuel exhaustion,
+    and NEITHER contract monitor of the retry loop (`retryStepT` (1)/(2)) fires. New invariants (GM.Proof.BlocksTNP20-25): parent
+    pointers and children lists agree (`TreeOK`), the last opened leaf is the last child of its parent (so the `else` of
+    `last == parent.LastChild()` is dead), `temporaryParagraphKey` is only constrained while a setext block is open. -/
+theorem block_phase_with_transformers_total : type_of% @GM.Props.ConvertNP.block_phase_with_transformers_total := @GM.Props.ConvertNP.block_phase_with_transformers_total
+
+/-- (re-export of `GM.Props.ConvertNP.block_phase_no_go_panic`) **goal (c) — the block phase of the default pipeline never raises a Go panic, for EVERY byte string**:
+    `GM.Convert.blockPhase true src` (the link reference transformer behind its run-time check) returns a tree, or answers `pre` —
+    the outcome of the run-time check `WFSegs` and of contract monitor (3), the only abnormal ends left; every Go run-time panic of
+    the model (`index`, `slice`, `nil`, `assert`, `explicit`) and the fuel error are excluded. -/
+theorem block_phase_no_go_panic : type_of% @GM.Props.ConvertNP.block_phase_no_go_panic := @GM.Props.ConvertNP.block_phase_no_go_panic
+
+/-- (re-export of `GM.Props.ConvertNP.block_phase_total_modulo_guard`) **goal (c) in the form that composes with "the guard never fires"**: with the transformer behind the check `linesOKB`
+    (`WFSegs` ∧ no blank line) whose outcome `e` is a PARAMETER, every run ends normally or with `e` — for every `e` and every byte
+    string -/
+theorem block_phase_total_modulo_guard : type_of% @GM.Props.ConvertNP.block_phase_total_modulo_guard := @GM.Props.ConvertNP.block_phase_total_modulo_guard
+
+/-- (re-export of `GM.Props.ConvertNP.monitors_never_fire`) **goal (d) — none of the model's contract monitors fires, for EVERY byte string**: with the guard's outcome chosen different
+    from `pre` (the code every monitor answers: retry monitors (1)/(2) of `retryStepT`, the progress monitor of the scan, the
+    stale-elements check of `removeLoop`, contract monitor (3) of `finishLines`), no run ends in `pre` -/
+theorem monitors_never_fire : type_of% @GM.Props.ConvertNP.monitors_never_fire := @GM.Props.ConvertNP.monitors_never_fire
+
+/-- (re-export of `GM.Props.ConvertNP.guard_never_fires`) **The run-time check in front of the transformer never fires, for EVERY byte string**: the block phase with the guarded
+    transformer (`guardE e`: check `WFSegs` ∧ no blank line, outcome `e`) IS the block phase with the bare `Transform`, whatever
+    `e`. Invariant carried through the whole driver with transformers, RequireParagraph path included (GM.Proof.BlocksTNO6-10,
+    wf0's `Inv` re-done next to the no-panic walk): the lines of every non-raw block increase, every segment is non-empty, every
+    line of a Paragraph holds a non-space byte; `Transform` only drops a prefix of the lines (`PTPost`); the setext heading takes
+    the lines of a paragraph that still has some. -/
+theorem guard_never_fires : type_of% @GM.Props.ConvertNP.guard_never_fires := @GM.Props.ConvertNP.guard_never_fires
+
+/-- (re-export of `GM.Props.ConvertNP.block_phase_total`) **C01, block phase of the default pipeline, for EVERY byte string: `GM.Convert.blockPhase true src` returns a tree** — no Go
+    run-time panic, no fuel exhaustion, no contract monitor, and the run-time check `WFSegs` of `guardedTransform` does not fire —
+    all of whose line segments lie inside the source and whose Lists only have ListItem children. -/
+theorem block_phase_total : type_of% @GM.Props.ConvertNP.block_phase_total := @GM.Props.ConvertNP.block_phase_total
+
+/-- (re-export of `GM.Props.ConvertNP.block_phase_guard_is_observer`) the run-time check of the composition is an observer: with and without it the block phase is the same function -/
+theorem block_phase_guard_is_observer : type_of% @GM.Props.ConvertNP.block_phase_guard_is_observer := @GM.Props.ConvertNP.block_phase_guard_is_observer
+
+/-- (re-export of `GM.Props.ConvertNP.transform_run_total`) the block phase with the bare transformer (`blockPhase false`) returns a tree for every byte string -/
+theorem transform_run_total : type_of% @GM.Props.ConvertNP.transform_run_total := @GM.Props.ConvertNP.transform_run_total
+
+/-- (re-export of `GM.Props.ConvertNP.transform_run_lines_wellformed`) **C05(c) for the store the block phase WITH the transformer returns, every byte string**: the lines of every non-raw block
+    increase, segments are non-empty without ForceNewline, `WFSegs` when there are lines; every line of a Paragraph holds a
+    non-space byte (wf0's `inline_lines_wellformed` for `run`, now for `runT`) -/
+theorem transform_run_lines_wellformed : type_of% @GM.Props.ConvertNP.transform_run_lines_wellformed := @GM.Props.ConvertNP.transform_run_lines_wellformed
+
+/-- (re-export of `GM.Props.ConvertNP.block_phase_lines_wellformed`) … for `blockPhase true` itself -/
+theorem block_phase_lines_wellformed : type_of% @GM.Props.ConvertNP.block_phase_lines_wellformed := @GM.Props.ConvertNP.block_phase_lines_wellformed
+
+/-- (re-export of `GM.Props.ConvertNP.guard_never_fires_no_underline`) **the run-time check in front of the transformer never fires** — on every source without a setext underline: the block phase
+    with the guarded transformer IS the block phase with the bare `Transform`, whatever the guard would answer. Invariant (wf0's
+    `Inv` carried through the driver with transformers, GM.Proof.BlocksTNO1-5): the lines of every non-raw block increase, every
+    segment is non-empty, every line of a Paragraph holds a non-space byte; a transformer call (`PTPost`) only drops a prefix of the
+    lines, so all of it survives. -/
+theorem guard_never_fires_no_underline : type_of% @GM.Props.ConvertNP.guard_never_fires_no_underline := @GM.Props.ConvertNP.guard_never_fires_no_underline
+
+/-- (re-export of `GM.Props.ConvertNP.transform_run_total_no_underline`) … hence **the block phase with the bare transformer ends normally** on such sources: no guard, no monitor, no panic -/
+theorem transform_run_total_no_underline : type_of% @GM.Props.ConvertNP.transform_run_total_no_underline := @GM.Props.ConvertNP.transform_run_total_no_underline
+
+/-- (re-export of `GM.Props.ConvertNP.block_phase_total_no_underline`) … and **C01 for the block phase of the default pipeline, unconditional on such sources**: `blockPhase true src` returns a tree;
+    the run-time check is an observer (`blockPhase true = blockPhase false`) -/
+theorem block_phase_total_no_underline : type_of% @GM.Props.ConvertNP.block_phase_total_no_underline := @GM.Props.ConvertNP.block_phase_total_no_underline
+
+/-- (re-export of `GM.Props.ConvertNP.block_phase_guard_is_observer_no_underline`) see `GM.Props.ConvertNP.block_phase_guard_is_observer_no_underline` -/
+theorem block_phase_guard_is_observer_no_underline : type_of% @GM.Props.ConvertNP.block_phase_guard_is_observer_no_underline := @GM.Props.ConvertNP.block_phase_guard_is_observer_no_underline
+
+/-- (re-export of `GM.Props.ConvertNP.transform_run_lines_wellformed_no_underline`) the C05(c) facts for the store the block phase WITH the transformer returns (such sources): the lines of every non-raw block
+    increase, segments are non-empty without ForceNewline, `WFSegs` when there are lines; every line of a Paragraph holds a non-space
+    byte -/
+theorem transform_run_lines_wellformed_no_underline : type_of% @GM.Props.ConvertNP.transform_run_lines_wellformed_no_underline := @GM.Props.ConvertNP.transform_run_lines_wellformed_no_underline
+
+/-- (re-export of `GM.Props.ConvertNP.block_phase_store_shape_partial`) the same with the list shape of the returned store exported (`KidsOK`: the children of a List are ListItems with offset ≥ 0,
+    a node whose parent is a List is a ListItem) — what the end-to-end C05 statement of package `e2e` consumes -/
+theorem block_phase_store_shape_partial : type_of% @GM.Props.ConvertNP.block_phase_store_shape_partial := @GM.Props.ConvertNP.block_phase_store_shape_partial
+
+/-- (re-export of `GM.Props.ConvertNP.block_phase_lines_closed`) **Every non-raw block of the store `blockPhase true` returns has padding 0 on all its lines — unless it is a PARENTLESS
+    Heading** (wf0's close discipline `nonraw_lines_padding_zero`, carried through the driver with transformers,
+    GM.Proof.BlocksTNO11-17). The exception is real: see `abandoned_heading_keeps_padding`. -/
+theorem block_phase_lines_closed : type_of% @GM.Props.ConvertNP.block_phase_lines_closed := @GM.Props.ConvertNP.block_phase_lines_closed
+
+/-- (re-export of `GM.Props.ConvertNP.block_phase_child_lines_padding_zero`) the tree-walk form (what `walkBlock` / the inline phase visit): every entry of a child list has that parent and, when it is
+    not raw, padding 0 on all its lines -/
+theorem block_phase_child_lines_padding_zero : type_of% @GM.Props.ConvertNP.block_phase_child_lines_padding_zero := @GM.Props.ConvertNP.block_phase_child_lines_padding_zero
+
+/-- (re-export of `GM.Props.ConvertNP.block_phase_lines_padding_zero`) the conjunction package `e2e` composes with (`GM.Props.ConvertE2ENT.convert_total_of_block_phase_theorems`): children of any
+    node are padding-free when not raw, and the Document node has no lines -/
+theorem block_phase_lines_padding_zero : type_of% @GM.Props.ConvertNP.block_phase_lines_padding_zero := @GM.Props.ConvertNP.block_phase_lines_padding_zero
+
+/-- (re-export of `GM.Props.ConvertNP.block_phase_container_nodes_have_no_lines`) Document, Blockquote, List, ListItem and ThematicBreak nodes have no lines; node 0 is the Document; the open-block stack is
+    empty at the end; parent pointers and child lists agree (`TreeOK`) -/
+theorem block_phase_container_nodes_have_no_lines : type_of% @GM.Props.ConvertNP.block_phase_container_nodes_have_no_lines := @GM.Props.ConvertNP.block_phase_container_nodes_have_no_lines
+
+/-- (re-export of `GM.Props.ConvertNP.block_phase_root_is_document`) see `GM.Props.ConvertNP.block_phase_root_is_document` -/
+theorem block_phase_root_is_document : type_of% @GM.Props.ConvertNP.block_phase_root_is_document := @GM.Props.ConvertNP.block_phase_root_is_document
+
+/-- (re-export of `GM.Props.ConvertNP.block_phase_stack_empty_at_end`) see `GM.Props.ConvertNP.block_phase_stack_empty_at_end` -/
+theorem block_phase_stack_empty_at_end : type_of% @GM.Props.ConvertNP.block_phase_stack_empty_at_end := @GM.Props.ConvertNP.block_phase_stack_empty_at_end
+
+/-- (re-export of `GM.Props.ConvertNP.block_phase_tree_consistent`) see `GM.Props.ConvertNP.block_phase_tree_consistent` -/
+theorem block_phase_tree_consistent : type_of% @GM.Props.ConvertNP.block_phase_tree_consistent := @GM.Props.ConvertNP.block_phase_tree_consistent
+
+/-- (re-export of `GM.Props.ConvertNP.abandoned_heading_keeps_padding`) **"padding 0 on every non-raw node of the store" is FALSE for the driver with transformers** (kernel-evaluated witness):
+    in `> [a]: /u⏎>⇥===⏎` setextHeadingParser.Open builds a Heading on the tab-padded underline (segment 12..16, padding 2), the
+    paragraph is transformed away, `continuable = false; goto retry` — the Heading is abandoned: it stays in the store, parentless,
+    with its padded line (Go: garbage; never visited by `walkBlock`). -/
+theorem abandoned_heading_keeps_padding : type_of% @GM.Props.ConvertNP.abandoned_heading_keeps_padding := @GM.Props.ConvertNP.abandoned_heading_keeps_padding
+
+/-- (re-export of `GM.Props.ConvertNP.block_phase_lines_ordered`) **C05(c) order clause for the store `blockPhase true` returns, EVERY node, raw kinds included** (CodeBlock / FencedCodeBlock /
+    HTMLBlock: wf0's `PadL` / `RawC` machinery of `BlocksOrdRaw` carried through the driver with transformers): the line segments
+    of every node increase -/
+theorem block_phase_lines_ordered : type_of% @GM.Props.ConvertNP.block_phase_lines_ordered := @GM.Props.ConvertNP.block_phase_lines_ordered
+
+/-- (re-export of `GM.Props.ConvertNP.block_phase_raw_lines_ordered`) see `GM.Props.ConvertNP.block_phase_raw_lines_ordered` -/
+theorem block_phase_raw_lines_ordered : type_of% @GM.Props.ConvertNP.block_phase_raw_lines_ordered := @GM.Props.ConvertNP.block_phase_raw_lines_ordered
+
+/-- (re-export of `GM.Props.ConvertE2ENP.convert_total`) **C01 END TO END**: `convertCore` answers HTML for every byte string, every Unicode-class assignment and every option
+    set — no error outcome of any phase of the composed model -/
+theorem convert_total : type_of% @GM.Props.ConvertE2ENP.convert_total := @GM.Props.ConvertE2ENP.convert_total
+
+/-- (re-export of `GM.Props.ConvertE2ENP.convert_never_errs`) no outcome other than HTML -/
+theorem convert_never_errs : type_of% @GM.Props.ConvertE2ENP.convert_never_errs := @GM.Props.ConvertE2ENP.convert_never_errs
+
+/-- (re-export of `GM.Props.ConvertE2ENP.block_phase_bracket_free_eq`) **on a source without `[` the block phase of the default pipeline IS the block phase without paragraph transformers** -/
+theorem block_phase_bracket_free_eq : type_of% @GM.Props.ConvertE2ENP.block_phase_bracket_free_eq := @GM.Props.ConvertE2ENP.block_phase_bracket_free_eq
 
 end GM.Props.C01
